@@ -289,6 +289,23 @@ def run(ctx):
                             first = False
                 elif x[0] == "call" and x[1].endswith("::pop"):
                     n_emit += 1
+        # an emission made directly in the `)` step (no emitting loop of its own): the step lowers the depth by 1 + #emissions
+        for t, p in closes:
+            pops = sum(1 for k, x in t.items if k == "e" and x[0] == "call" and x[1].endswith("::pop"))
+            nested = any(k == "e" and x[0] == "loophead" and x[1] != Hmain for k, x in t.items)
+            if pops and not nested and D in t.pre and D in t.post:
+                from analysis import dom as _dom
+                l0 = _dom.linear(_dom.parse_term(rel.cstr(t.pre[D]).replace("binop:", "")))
+                l1 = _dom.linear(_dom.parse_term(rel.cstr(t.post[D]).replace("binop:", "")))
+                if l0 is None or l1 is None:
+                    probs.append("depth after an emitting `)` step is not linear in the depth: %s" % rel.cstr(t.post[D])[:60])
+                    continue
+                diff = dict(l1)
+                for k2, v2 in l0.items():
+                    diff[k2] = diff.get(k2, 0) - v2
+                diff = {k2: v2 for k2, v2 in diff.items() if v2}
+                if diff != {"1": -(1 + pops)}:
+                    probs.append("a `)` step that emits %d additional `)` changes the depth by %s instead of %d: an emission of the additional `)` does not lower the depth by one" % (pops, diff.get("1", 0), -(1 + pops)))
         # every emission lowers the depth by one (the emitting loop's own trips)
         for p in allp:
             for t2 in loops.trips(p, b["path"], 0):
